@@ -610,8 +610,14 @@ def check_nox(ctx, impl, case, outs):
     # linear scaling in the certification indices
     c = case.get('c', 2.0)
     r2 = impl.BFFM2_EINOx(ff, impl.tmv([c * e for e in ei]), impl.tmv(cal), T, P)
-    i = _first_bad(r2.NOxEI, c * nox, 1e-6 if narrow else 1e-8, 1e-300)
-    rep.clause('nox_scales_linearly', i is None, '' if i is None else f'c={c!r} index {i}: {float(r2.NOxEI[i])!r} vs {c * float(nox[i])!r}')
+    a2, b2 = np.asarray(r2.NOxEI, dtype=float), c * nox
+    if abs(u2f(asis['slope'])) > 30.0:
+        # (extreme slope: where one side has overflowed to `inf` and the other, scaled by c, has not yet, linearity cannot be read off
+        #  doubles — the overflow itself is the open finding reported by `nox_finite_nonneg` above; only finite pairs are compared)
+        fin2 = np.isfinite(a2) & np.isfinite(b2) & (np.abs(a2) < 1e300) & (np.abs(b2) < 1e300)
+        a2, b2 = a2[fin2], b2[fin2]
+    i = _first_bad(a2, b2, 1e-6 if narrow else 1e-8, 1e-300)
+    rep.clause('nox_scales_linearly', i is None, '' if i is None else f'c={c!r} index {i}: {float(a2[i])!r} vs {float(b2[i])!r}')
     # reference conditions: at sea-level static ISA the certification data must be reproduced (log-linear data: exactly)
     lx, ly = np.log10(cal), np.log10(ei)
     A = np.vstack([lx, np.ones(4)]).T
@@ -672,8 +678,13 @@ def check_hcco(ctx, impl, case, outs):
     rep.clause('hcco_finite_nonneg', fin, f'slope {slope!r}: {_fl(r)[:6]}', finding=F_OVF if (extreme and not fin and only_inf) else None)
     c = case.get('c', 2.0)
     r2 = np.asarray(impl.EI_HCCO(ff, impl.tmv([c * e for e in ei]), impl.tmv(cal), T, P), dtype=float)
-    i = _first_bad(r2, c * r, 1e-9)
-    rep.clause('hcco_scales_linearly', i is None, '' if i is None else f'c={c!r} ff={ff[i]!r}: {float(r2[i])!r} vs {c * float(r[i])!r}')
+    a2, b2, ffc = r2, c * r, ff
+    if extreme:
+        # (as for NOx: with an extreme slope only pairs in which neither side has overflowed are compared)
+        fin2 = np.isfinite(a2) & np.isfinite(b2) & (np.abs(a2) < 1e300) & (np.abs(b2) < 1e300)
+        a2, b2, ffc = a2[fin2], b2[fin2], ff[fin2]
+    i = _first_bad(a2, b2, 1e-9)
+    rep.clause('hcco_scales_linearly', i is None, '' if i is None else f'c={c!r} ff={ffc[i]!r}: {float(a2[i])!r} vs {float(b2[i])!r}')
     # documented clamping (theorem hcco_clamped): increasing idle<approach<climb flows, flow at or above idle
     if cal[0] < cal[1] < cal[2]:
         fac = (T / 288.15) ** 3.3 / (P / 101325.0) ** 1.02
